@@ -27,8 +27,9 @@ TIERS = {
 }
 RULE = ("one run = seeded history of 4-12 op templates (public pyrepseq calls with literal arguments taken from a shared "
         "heap of caller-owned objects), swarm per run: enabled groups, co-scheduling of templates that share a function "
-        "group, forced polluter->victim pairs, <= 2 faults (callback_raise, fork_fail, io_error, async_interrupt; natural "
-        "raises are ordinary templates), seeded pool schedule. distinct = hash of the sequence of (template, rng seed, "
+        "group, forced polluter->victim pairs, <= 2-6 faults (callback_raise, fork_fail, io_error, async_interrupt; natural "
+        "raises are ordinary templates), seeded pool schedule; two runs in five are interrupt-sweep runs (three templates in a fixed rotation "
+        "through the catalogue, each interrupted at a seeded position and followed by a victim of its group). distinct = hash of the sequence of (template, rng seed, "
         "fault kind, fired, fault position class). non-trivial = at least 2 calls executed.")
 SIMULATED_TIME_NOTE = "no simulated clock (code reads none); logical time = op index; async interrupts are placed on pyrepseq line events"
 COMPONENTS = {
@@ -208,6 +209,22 @@ def state_snapshot():
         globs["env.pandas.mode.chained_assignment"] = repr(pd.get_option("mode.chained_assignment")) if "chained_assignment" in dir(pd.options.mode) else ""
     except Exception:
         pass
+    try:  # registries of the dependencies that pyrepseq's plotting / table code reads
+        import warnings as _w
+
+        import logomaker
+        import matplotlib as mpl
+        import pandas as pd
+        import seaborn as sns
+
+        globs["env.logomaker.color_schemes"] = digest(sorted((k, repr(v)) for k, v in logomaker.src.colors.COLOR_SCHEME_DICT.items()))
+        globs["env.matplotlib.colormaps"] = digest(sorted(mpl.colormaps))
+        globs["env.pandas.options"] = digest(sorted((k, repr(v)) for k, v in pd._config.config._global_config.items())) \
+            if hasattr(pd, "_config") else ""
+        globs["env.warnings.filters"] = digest([repr(f)[:120] for f in _w.filters][:60])
+        globs["env.seaborn.axes_style"] = digest(sorted((k, repr(v)) for k, v in sns.axes_style().items()))
+    except Exception:
+        pass
     return fns, globs
 
 
@@ -238,15 +255,38 @@ def generate(seed, tier, index=0):
     names = sorted(ops)
     groups = sorted(set(o.group for o in ops.values()))
     enabled = [g for g in groups if rng.random() < rng.choice([0.4, 0.7, 1.0])] or [rng.choice(groups)]
-    faults_on = rng.random() < 0.5
+    faults_on = rng.random() < 0.6
     sw = {
         "groups": enabled,
         "n_ops": rng.randint(4, 12),
         "faults": [f for f in ("callback_raise", "fork_fail", "io_error", "async_interrupt") if rng.random() < 0.6] if faults_on else [],
         "coschedule": rng.choice([0.2, 0.45, 0.7]),
         "slow_weight": rng.choice([0.05, 0.15, 0.4]),
+        "fault_budget": rng.choice([2, 2, 4, 6]),
+        "p_interrupt": rng.choice([0.25, 0.5]),
     }
     sched = {"policy": "seeded", "seed": rng.getrandbits(32), "deliver_bias": rng.choice([0.1, 1.0, 1000.0])}
+    if index % 5 in (1, 3):
+        # interrupt sweep: two runs in five walk through the catalogue in a fixed rotation and interrupt three templates each at a
+        # seeded position, so that every template is interrupted about equally often in every batch (uniformly random fault
+        # placement leaves most templates un-interrupted in a quick batch); each is followed by a victim of its own group, and
+        # the directed probes add more victims whenever the interrupt left any observable state behind
+        slot = (index // 5) * 2 + (0 if index % 5 == 1 else 1)
+        out = []
+        for j in range(3):
+            n = names[(slot * 3 + j) % len(names)]
+            spec = ops[n]
+            o = {"op": n, "fault": {"kind": "async_interrupt", "frac": round(rng.uniform(0.02, 1.0), 4)}}
+            if spec.rand:
+                o["rng_seed"] = rng.choice(RAND_SEEDS)
+            out.append(o)
+            same = [m for m in names if ops[m].group == spec.group and not ops[m].slow] or [n]
+            v = {"op": rng.choice(same)}
+            if ops[v["op"]].rand:
+                v["rng_seed"] = rng.choice(RAND_SEEDS)
+            out.append(v)
+        sw = {"kind": "interrupt_sweep", "slot": slot, "faults": ["async_interrupt"]}
+        return {"property": PROP, "seed": seed, "tier": tier, "swarm": sw, "ops": out, "sched": sched}
     seq = []
     pairs = same_group_pairs()
     if tier == "thorough" and index < len(pairs):
@@ -293,7 +333,7 @@ def generate(seed, tier, index=0):
         o = {"op": n}
         if spec.rand:
             o["rng_seed"] = rng.choice(RAND_SEEDS)
-        if sw["faults"] and nfaults < 2:
+        if sw["faults"] and nfaults < sw["fault_budget"]:
             kinds = []
             if spec.cb is not None and "callback_raise" in sw["faults"] and rng.random() < 0.6:
                 kinds.append("callback_raise")
@@ -301,7 +341,7 @@ def generate(seed, tier, index=0):
                 kinds.append("fork_fail")
             if spec.io and "io_error" in sw["faults"] and rng.random() < 0.6:
                 kinds.append("io_error")
-            if not kinds and "async_interrupt" in sw["faults"] and rng.random() < 0.25:
+            if not kinds and "async_interrupt" in sw["faults"] and rng.random() < sw["p_interrupt"]:
                 kinds.append("async_interrupt")
             if kinds:
                 k = rng.choice(kinds)
@@ -521,9 +561,12 @@ def pick_probes(op, spec, changed, table, ops):
 
     want = []
     seed = op.get("rng_seed")
+    again = []
     if spec.rand:
-        want.append({"op": op["op"], "rng_seed": RAND_SEEDS[1] if seed == RAND_SEEDS[0] else RAND_SEEDS[0]})
-    want.append({"op": op["op"], "rng_seed": seed} if spec.rand else {"op": op["op"]})
+        again.append({"op": op["op"], "rng_seed": RAND_SEEDS[1] if seed == RAND_SEEDS[0] else RAND_SEEDS[0]})
+    again.append({"op": op["op"], "rng_seed": seed} if spec.rand else {"op": op["op"]})
+    if not op.get("fault"):
+        want += again  # (after a fault the same template goes LAST: completing normally it may restore what the fault left behind)
     kinds = set(k for k, _ in changed)
     names_changed = [n for _, n in changed]
     if any(n.startswith("env.") for n in names_changed):
@@ -536,6 +579,8 @@ def pick_probes(op, spec, changed, table, ops):
         sib = [n for n, o in ops.items() if o.group == spec.group and (not o.slow or spec.slow)]
         few = spec.slow or all(n == "pyrepseq.nn._cal_params" for n in names_changed)
         want += [{"op": n} for n in rot(sib, 2 if few else 5, "sib")]
+    if op.get("fault"):
+        want += again
     out, seen = [], set()
     for w in want:
         o = ops.get(w["op"])
